@@ -19,11 +19,12 @@ def build(ck):
 
 RULE = ("all histories of <= D steps over {stop, tick (<= 4), set_heart_beat(X,0|1|2) for 4 objects, destruct(X), clone a "
         "heart-beat object (2 programs, interval 1|2), an uncaught error raised by a driver-level apply in an unrelated object "
-        "without heart beat, a call_out of that object that raises in the call_out phase of the next tick} from each of 27 initial populations (O0..O2 each off/1/2; O0 is a "
+        "without heart beat, a call_out of that object that raises in the call_out phase of the next tick, reload_object(X) whose "
+        "create() enables the heart beat again} from each of 27 initial populations (O0..O2 each off/1/2; O0 is a "
         "blueprint, O1 O2 clones, +1 object cloned during the history), on the real src/backend.c driven as backend() does "
         "(call_heart_beat inside save_context/setjmp/restore_context, remove_destructed_objects after each tick); deviations "
         "(budget B) chosen at the moment a heart_beat is invoked inside a round: its script {self off, other->set_heart_beat"
-        "(0|1|2) x 3 others, destruct self, destruct other x 3, clone (3 kinds), error()} and the timer firing (H1 sets "
+        "(0|1|2) x 3 others, destruct self, destruct other x 3, clone (3 kinds), error(), set_heart_beat(1|2) on itself, reload_object(any of 4)} and the timer firing (H1 sets "
         "heart_beat_flag) at the k-th instruction from there (k <= K); 3 undisturbed epilogue ticks; oracle = LPC (tick,object) "
         "log vs lock-step cadence model + query_heart_beat/heart_beats() vs model + round cursor in bounds and pointing at the "
         "called object at every call and every instruction; canonical state at step boundaries = driver list (object, interval, "
@@ -44,21 +45,25 @@ def run(ck):
     P, A, S = ex["h_c11"], ex["h_c11a"], ex["h_c11s"]
     full = ["--init=13"]          # O0 O1 O2 all enabled with interval 1
     grow = ["--init=4"]           # O0 O1 enabled, O2 off: with chunk 2 the next enable reallocates the list
+    sub = ["--inits=13,26,5,23"]  # (1,1,1) (2,2,2) (2,1,off) (2,1,2)
     if ck.tier == "quick":
-        ck.explore(P, ["--depth=3", "--trunc=1"], "d3-b1", budget=1, deadline_s=70, jobs=JOBS)
-        ck.explore(P, ["--depth=3", "--trunc=1"] + full, "d3-b2-full", budget=2, deadline_s=70, jobs=JOBS)
-        ck.explore(A, ["--depth=2", "--trunc=1"], "d2-b1-asan", budget=1, deadline_s=50, jobs=JOBS)
-        ck.explore(S, ["--depth=2", "--trunc=1"], "d2-b1-chunk2-asan", budget=1, deadline_s=50, jobs=JOBS)
+        ck.explore(P, ["--depth=2", "--trunc=1"], "d2-b1", budget=1, deadline_s=40, jobs=JOBS)
+        ck.explore(P, ["--depth=3", "--trunc=1"] + sub, "d3-b1-4inits", budget=1, deadline_s=70, jobs=JOBS)
+        ck.explore(P, ["--depth=2", "--trunc=1"] + full, "d2-b2-full", budget=2, min_budget=2, deadline_s=40, jobs=JOBS)
+        ck.explore(A, ["--depth=2", "--trunc=1"] + sub, "d2-b1-4inits-asan", budget=1, deadline_s=35, jobs=JOBS)
+        ck.explore(S, ["--depth=2", "--trunc=1"] + sub, "d2-b1-4inits-chunk2-asan", budget=1, deadline_s=35, jobs=JOBS)
         ck.explore(S, ["--depth=2", "--trunc=1"] + grow, "d2-b2-chunk2-asan-grow", budget=2, min_budget=2, deadline_s=30, jobs=JOBS)
     else:
-        # deadlines are sized for a heavily loaded machine (sum 40 min); on an idle 16-core machine the tier takes ~10 min
-        ck.explore(P, ["--depth=4", "--trunc=1"], "d4-b1", budget=1, deadline_s=600, jobs=JOBS)
-        ck.explore(P, ["--depth=3", "--trunc=1"], "d3-b2", budget=2, min_budget=2, deadline_s=600, jobs=JOBS)
+        # sized for a heavily loaded machine (deadlines sum 40 min); ~10 min on an idle 16-core machine
+        ck.explore(P, ["--depth=3", "--trunc=1"], "d3-b1", budget=1, deadline_s=300, jobs=JOBS)
+        ck.explore(P, ["--depth=4", "--trunc=1"] + sub, "d4-b1-4inits", budget=1, min_budget=1, deadline_s=500, jobs=JOBS)
+        ck.explore(P, ["--depth=3", "--trunc=1"] + full, "d3-b2-full", budget=2, min_budget=2, deadline_s=400, jobs=JOBS)
+        ck.explore(P, ["--depth=2", "--trunc=1"], "d2-b2", budget=2, min_budget=2, deadline_s=300, jobs=JOBS)
         ck.explore(P, ["--depth=2", "--trunc=1"] + full, "d2-b3-full", budget=3, min_budget=3, deadline_s=200, jobs=JOBS)
         ck.explore(P, ["--depth=3", "--trunc=40"] + full, "d3-b1-full-every-insn", budget=1, min_budget=1, deadline_s=150, jobs=JOBS)
-        ck.explore(A, ["--depth=2", "--trunc=1"], "d2-b1-asan", budget=1, deadline_s=100, jobs=JOBS)
-        ck.explore(S, ["--depth=3", "--trunc=1"], "d3-b1-chunk2-asan", budget=1, deadline_s=450, jobs=JOBS)
-        ck.explore(S, ["--depth=3", "--trunc=1"] + grow, "d3-b2-chunk2-asan-grow", budget=2, min_budget=2, deadline_s=300, jobs=JOBS)
+        ck.explore(A, ["--depth=2", "--trunc=1"], "d2-b1-asan", budget=1, deadline_s=150, jobs=JOBS)
+        ck.explore(S, ["--depth=3", "--trunc=1"] + sub, "d3-b1-4inits-chunk2-asan", budget=1, deadline_s=250, jobs=JOBS)
+        ck.explore(S, ["--depth=3", "--trunc=1"] + grow, "d3-b1-chunk2-asan-grow", budget=1, deadline_s=150, jobs=JOBS)
     ck.finish(vlib.mc_coverage(ck.parts, RULE), assumptions=ASSUME)
 
 
